@@ -118,6 +118,12 @@ func ProcessBulk(ctx context.Context, l backend.Ledger, bulk Bulk, continueOnFai
 				targetID = ""
 			case ledger.MetaTargetTypeTransaction:
 				targetID = big.NewInt(0)
+			default:
+				// the engine knows no other kind of target (and panics on one)
+				if parseFailed(fmt.Errorf("unknown target type '%s'", req.TargetType)) {
+					return ret, errorsInBulk, nil
+				}
+				continue
 			}
 			if err := json.Unmarshal(req.TargetID, &targetID); err != nil {
 				if parseFailed(err) {
@@ -195,6 +201,12 @@ func ProcessBulk(ctx context.Context, l backend.Ledger, bulk Bulk, continueOnFai
 				targetID = ""
 			case ledger.MetaTargetTypeTransaction:
 				targetID = big.NewInt(0)
+			default:
+				// the engine knows no other kind of target (and panics on one)
+				if parseFailed(fmt.Errorf("unknown target type '%s'", req.TargetType)) {
+					return ret, errorsInBulk, nil
+				}
+				continue
 			}
 			if err := json.Unmarshal(req.TargetID, &targetID); err != nil {
 				if parseFailed(err) {
